@@ -329,6 +329,8 @@ func runC11(e *Engine, r *Report) {
 	// "each entry is delivered once": the applied index advances in the function (and critical
 	// section) that applied the entry, on every exit (decided by C02's rule set)
 	borrow(e, r, "C02", "MPT-setapplied")
+	// an on-disk state machine is never handed an entry at or below the index it holds: the cursors that enforce it (C08)
+	borrow(e, r, "C08", "WMW-ondisk-cursors", "MPT-open-ondisk-index")
 	ruleSnapshotJobExclusion(e, r)
 	ruleLastAppliedContiguous(e, r)
 	ruleTaskQueueFIFO(e, r)
